@@ -335,7 +335,7 @@ def run(ctx):
 
 
 MANIFEST_ENTRY = {
-    "technique": "static analysis: MIR provenance of the DefaultTo operand and control-dependence on the inherits lookup, freshness (new/clear dominance) of the visited set at every chain walk, syn inspection of the four per-locale generators",
-    "level_text": "Structural: where the inherits table enters (DefaultTo), where fallbacks are recorded, how the chain is walked (incl. that every walk starts from an empty visited set) and how every generator consumes the result are decided from code shape for all projects. The walk is not executed for a concrete map.",
+    "technique": "static analysis: abstract evaluation (rules/absint.py) of the default_to choice (inherits entry / suppress_key_warnings x present or absent), of the inherits chain walk on a map with a chain, a cycle and a self-loop, and of Locale::merge on missing / present / surplus keys; MIR freshness (new/clear dominance) of the visited set at every walk; syn inspection of the four per-locale generators in canonical form",
+    "level_text": "Structural: where the inherits table enters (DefaultTo), where fallbacks are recorded, how the chain is walked (incl. that every walk starts from an empty visited set) and how every generator consumes the result are decided from the code for all projects: table-like functions by exhaustive case analysis over constructor shapes and map shapes, the rest by dominance / provenance. No project is loaded.",
     "level_note": "Trusted: Rust or-pattern semantics. Known finding D11. Not decided: concrete chain results.",
 }
